@@ -68,10 +68,24 @@ Proof.
   - rewrite messages_of_other by (intro E; subst id; contradiction). cbn [length]. apply IH; assumption.
 Qed.
 
-(* an id listed twice is served and reported twice *)
+(* exactly one result per (listed target, file), for ANY id list (repeats included) *)
+Theorem direct_one_result_any : forall nfiles ids behs o f,
+  In (Some o) ids -> f < nfiles ->
+  fst (send_direct nfiles ids behs) = DOk /\
+  length (filter (fun m => onat_eqb (d_target m) (Some o) && onat_eqb (d_file m) (Some f))
+                 (snd (send_direct nfiles ids behs))) = 1.
+Proof.
+  intros nfiles ids behs o f Hin Hf. unfold send_direct, send_direct_with.
+  destruct ids as [|i0 ids']; [destruct Hin|]. destruct nfiles as [|nf]; [lia|].
+  cbn [fst snd]. split; [reflexivity|].
+  apply direct_one_result; [apply dedupe_nodup|apply dedupe_in; exact Hin|exact Hf].
+Qed.
+
+(* before the repair an id listed twice was served and reported twice *)
 Theorem direct_duplicate_refuted :
-  snd (send_direct 1 [Some 0; Some 0] []) = [mkDMsg (Some 0) (Some 0) ENone; mkDMsg (Some 0) (Some 0) ENone].
-Proof. reflexivity. Qed.
+  snd (send_direct_with false 1 [Some 0; Some 0] []) = [mkDMsg (Some 0) (Some 0) ENone; mkDMsg (Some 0) (Some 0) ENone] /\
+  snd (send_direct 1 [Some 0; Some 0] []) = [mkDMsg (Some 0) (Some 0) ENone].
+Proof. split; reflexivity. Qed.
 
 (* a target that does not exist gets one error result *)
 Theorem direct_missing : forall nfiles behs, messages_of nfiles behs None = [mkDMsg None None EOther].
